@@ -334,9 +334,8 @@ func (e *kvElection) verifyLeadershipAfterReconnect() {
 }
 
 func (e *kvElection) handleReconnectVerificationFailed(err error) {
-	e.mu.Lock()
-	defer e.mu.Unlock()
-
+	// becomeFollower takes the election mutex itself (and decides, under it,
+	// whether this call ended the term); holding it here self-deadlocked.
 	if e.isLeader.Load() {
 		log := e.getLogger()
 		log.Error("demoting_due_to_reconnect_verification_failure",
@@ -346,13 +345,13 @@ func (e *kvElection) handleReconnectVerificationFailed(err error) {
 			)...,
 		)
 
-		e.becomeFollower()
+		wasLeader := e.becomeFollower()
 
 		e.mu.RLock()
 		onDemote := e.onDemote
 		e.mu.RUnlock()
 
-		if onDemote != nil {
+		if wasLeader && onDemote != nil {
 			log.Info("leader_demoted",
 				append(e.logWithContext(e.ctx),
 					zap.String("reason", "reconnect_verification_failed"),
